@@ -136,6 +136,20 @@ var routes = ev.Register(&ev.P[momentCase]{
 				return fail(fmt.Sprintf("Lunar.%s vs GetTimes()[%d].%s", p.A, idx, p.B), a, b)
 			}
 		}
+		// every entry of the hour list is the hour object of that slot: it answers like a lunar date built for the
+		// slot's first minute (the late-rat entry, slot 12, belongs to 23:00 and thus to the next day's pillar)
+		for _, i := range []int{0, 12, 1 + (t.D+t.H)%11} {
+			hh := 0
+			if i > 0 {
+				hh = 2*i - 1
+			}
+			at := calendar.NewSolar(t.Y, t.M, t.D, hh, 0, 0).GetLunar()
+			for _, p := range hourPairs {
+				if a, b := call(at, p.A), call(ts[i], p.B); a != b {
+					return fail(fmt.Sprintf("GetTimes()[%d].%s (asked on a lunar date at %02d:%02d) vs Lunar.%s at %02d:00", i, p.B, t.H, t.Mi, p.A, hh), b, a)
+				}
+			}
+		}
 		ly := calendar.NewLunarYear(l.GetYear())
 		for _, p := range yearPairs {
 			if a, b := call(l, p.A), call(ly, p.B); a != b {
